@@ -213,7 +213,9 @@ func (c11) Exec(cc core.Case, r *core.Rec) []core.Failure {
 	}
 	trig := bfTrigger(c.F)
 	var fs []core.Failure
-	add := func(kind, detail string) { fs = append(fs, core.Failure{Sig: "bf.Solve/" + kind + trig, Detail: detail}) }
+	add := func(kind, detail string) {
+		fs = append(fs, core.Failure{Sig: "bf.Solve/" + kind + trig, Detail: detail})
+	}
 	var model map[string]bool
 	pn, ab := guard(func() { model = bf.Solve(c.F.Build()) })
 	if pn != "" {
